@@ -160,16 +160,17 @@ def ws_comps(task, tier):
 
 
 def ws_live_comps(task):
-    """Liveness column of the working-set problem: cold start, generous budget, every zero-weight pattern."""
+    """Liveness column of the working-set problem: cold start, generous budget, every zero-weight pattern (used by C13)."""
     p = 5
     for wz in itertools.product((0.0, 1.0), repeat=p):
         if all(v == 0 for v in wz):
             continue
         for strat in ("subdiff", "fixpoint"):
-            yield dict(solver=dict(name="AndersonCD", kw=dict(p0=task["p0"], max_iter=60, max_epochs=5000, tol=1e-8, ws_strategy=strat,
-                                                              fit_intercept=task["fit_intercept"])),
-                       datafit=dict(name="Quadratic"), penalty=dict(name="WeightedL1", alpha=0.3, weights=list(wz), positive=False),
-                       X=WS_X.tolist(), y=WS_Y.tolist(), storage="denseF", xid="ws6x5", dev=3, live=True)
+            for pos in (False, True):
+                yield dict(solver=dict(name="AndersonCD", kw=dict(p0=task["p0"], max_iter=60, max_epochs=5000, tol=1e-8, ws_strategy=strat,
+                                                                  fit_intercept=task["fit_intercept"])),
+                           datafit=dict(name="Quadratic"), penalty=dict(name="WeightedL1", alpha=0.3, weights=list(wz), positive=pos),
+                           X=WS_X.tolist(), y=WS_Y.tolist(), storage="denseF", xid="ws6x5", dev=3, live=True)
 
 
 def check_buffers(comp, res):
@@ -209,25 +210,6 @@ def run_ws(task, ctx):
         if err is not None:
             ctx.violation("solver:AndersonCD.Xw_buffer", "fit_buffer_inconsistent", dict(op="solve", comp=comp), err, "== X w + b",
                           where=dict(solver="AndersonCD"), rank=n)
-    # liveness: a convex 6x5 problem must be solved to tolerance within 60 working-set iterations whatever the number of unpenalised
-    # (zero-weight, infinite-score) features relative to p0
-    for comp in ws_live_comps(task):
-        res = C.execute(comp)
-        n += 1
-        ctx.states += 1
-        ctx.transitions += 1
-        ctx.count("ws_live_cells")
-        if res["status"] != "ok":
-            ctx.count("exceptions")
-            continue
-        v = judge(comp, res)
-        if v is not None:
-            site, kind, obs, exp, where = v
-            ctx.violation(site, kind, dict(op="solve", comp=comp), obs, exp, where=where, rank=n)
-        if not res["stop_crit"] <= 1e-8:
-            ctx.violation("solver:AndersonCD.working_set", "does_not_converge_within_generous_budget", dict(op="solve", comp=comp),
-                          dict(stop_crit=res["stop_crit"], w=res["w"].tolist()), "stop_crit <= 1e-8 within max_iter=60",
-                          where=dict(solver="AndersonCD", p0=task["p0"]), rank=n)
     ctx.sample(dict(op="ws", p0=task["p0"], fit_intercept=task["fit_intercept"], cells=n))
 
 
@@ -241,8 +223,6 @@ def replay(params):
     if v is not None:
         kinds.append(v[1])
         detail["judge"] = dict(observed=v[2], expected=v[3], where=v[4])
-    if comp.get("live") and res["status"] == "ok" and not res["stop_crit"] <= 1e-8:
-        kinds.append("does_not_converge_within_generous_budget")
     if comp.get("xid") == "ws6x5":
         err = check_buffers(comp, res)
         if err is not None:
